@@ -21,7 +21,9 @@
 //!   alleq <rtype> <data> <rtype> <data>, alleqopt <opts> <opts>   AllRecordData ==
 //!   pzone|prrsig <u32> <u32>, pnsec3 <salt> <salt>   partial_cmp of ZONEMD (serial) / RRSIG (expiration) / NSEC3 (salt) differing in that field
 //!   hdr <owner> <rtype> <class> <ttl> <rdlen> (x2)     RecordHeader: `<==> <cmp>`
-//!   rdx <rtype> <field values> | <field values>      typed record data: `<==> <canonical_cmp> <hash tokens>`
+//!   rdx <rtype> <field values> | <field values>      typed record data: `<==> <canonical_cmp> <cmp> <partial_cmp> <canonical_cmp> <hash tokens>`
+//!   rdh <rtype> <tag>:<value> ...                    hash tokens of A, AAAA, TXT, SVCB/HTTPS, IPSECKEY, TSIG, OPT
+//!   ueq abs|rel <wire> abs|rel <wire>, uhash abs|rel <wire>   UncertainName
 //!   ipsechash <prec> <alg>                            hashing an IPSECKEY without gateway: Ok|Panic
 //! Results: `Ok <v>` or `Panic`.
 use bytes::Bytes;
@@ -422,6 +424,21 @@ fn name_cases(out: &mut Out, r: &mut Rng, n: u64) {
             chk(out, rx.cmp(&ry) == rfc_name_cmp(&x, &y), "relname_order_rfc4034_6_1", &c, "");
             chk(out, (rx.cmp(&ry) == Ordering::Equal) == e, "relname_cmp_eq", &c, "");
             chk(out, !e || feed(&rx) == feed(&ry), "relname_eq_hash", &c, "");
+            // UncertainName holding the same names
+            {
+                use domain::base::name::UncertainName;
+                let (ux, uy) = (UncertainName::relative(rx.clone()), UncertainName::relative(ry.clone()));
+                let (ua, ub) = (UncertainName::absolute(fa.clone()), UncertainName::absolute(fb.clone()));
+                out.case(&format!("ueq rel {} rel {}", hex(&wire_rel(&x)), hex(&wire_rel(&y))), &format!("Ok {}", ux == uy), x != y, "ueq");
+                out.case(&format!("ueq abs {} abs {}", hex(&wa), hex(&wb)), &format!("Ok {}", ua == ub), nt, "ueq");
+                out.case(&format!("ueq abs {} rel {}", hex(&wa), hex(&wire_rel(&y))), &format!("Ok {}", ua == uy), true, "ueq");
+                out.case(&format!("uhash rel {}", hex(&wire_rel(&x))), &format!("Ok {}", hex(&feed(&ux))), true, "uhash");
+                out.case(&format!("uhash abs {}", hex(&wa)), &format!("Ok {}", hex(&feed(&ua))), true, "uhash");
+                chk(out, (ux == uy) == e && (ua == ub) == base.eq && !(ua == uy) && !(ux == ub), "uncertain_eq", &c, "");
+                chk(out, (ux == uy) == (uy == ux) && (ua == ub) == (ub == ua), "uncertain_eq_sym", &c, "");
+                chk(out, (!(ux == uy) || feed(&ux) == feed(&uy)) && (!(ua == ub) || feed(&ua) == feed(&ub)), "uncertain_eq_hash", &c, "");
+                chk(out, feed(&ux) == feed(&rx) && feed(&ua) == ha, "repr_independent_uncertain_hash", &c, "");
+            }
             let (px, py) = (&rx, &ry);
             chk(out, ToRelativeName::name_eq(&px, &py) == e && ToRelativeName::name_cmp(&px, &py) == rx.cmp(&ry), "repr_independent_rel_iter_path", &c, "");
         }
@@ -741,8 +758,25 @@ fn rdata_cases(out: &mut Out, r: &mut Rng, n: u64) {
             let vb: Vec<String> = gs.iter().map(val).collect();
             let t2 = format!("rdx {} {} | {}", rt, va.join(" "), vb.join(" "));
             let (x2, y2) = (x.clone(), y.clone());
-            if let Ok(obs) = catch(move || format!("{} {} {}", x2 == y2, ord(x2.canonical_cmp(&y2)), toks(&x2))) {
+            let oo = |o: Option<Ordering>| match o { Some(x) => ord(x), None => "None" };
+            if let Ok(obs) = catch(move || format!("{} {} {} {} {} {}", x2 == y2, ord(x2.canonical_cmp(&y2)), ord(x2.cmp(&y2)), oo(x2.partial_cmp(&y2)), ord(x2.canonical_cmp(&y2)), toks(&x2))) {
                 out.case(&t2, &obs, wx != wy, "rdx");
+            }
+        }
+        // T2: Hasher tokens of the types outside the table
+        if [1u16, 28, 16, 64, 65, 45].contains(&rt) && i % 2 == 1 {
+            let tagged: Option<Vec<String>> = match rt {
+                1 => Some(vec![format!("4:{}", hex(&wx))]), 28 => Some(vec![format!("6:{}", hex(&wx))]), 16 => Some(vec![format!("o:{}", hex(&wx))]),
+                64 | 65 => match (&fs[0], &fs[1], &fs[2]) { (F::U16(p), F::Name(n), F::Params(_)) => { let mut pw = vec![]; f_wire(&fs[2], &mut pw);
+                        Some(vec![format!("w:{}", p), format!("n:{}", hex(&wire_abs(n))), format!("o:{}", hex(&pw))]) } _ => None },
+                _ => match (&fs[0], &fs[1], &fs[2]) { (F::U8(p), F::Gw(k, alg, addr, name), F::Tail(key, _)) => {
+                        let mut v = vec![format!("b:{}", p), format!("b:{}", k), format!("b:{}", alg)];
+                        match k { 1 => v.push(format!("4:{}", hex(&addr[..4]))), 2 => v.push(format!("6:{}", hex(&addr[..16]))), 3 => v.push(format!("n:{}", hex(&wire_abs(name)))), _ => {} }
+                        v.push(format!("o:{}", hex(key))); Some(v) } _ => None },
+            };
+            if let Some(tv) = tagged {
+                let x2 = x.clone();
+                if let Ok(obs) = catch(move || toks(&x2)) { out.case(&format!("rdh {} {}", rt, tv.join(" ")), &obs, true, "rdh"); }
             }
         }
         // the same octets through AllRecordData's dispatch
@@ -1037,9 +1071,11 @@ fn svcb_cases(out: &mut Out, r: &mut Rng, n: u64) {
     }
     // TSIG and OPT (pseudo record types) through AllRecordData: canonical order against the canonical form
     for i in 0..n {
+        let mut tagged: Option<Vec<String>> = None;
         let (rt, wx, wy) = if i % 3 == 0 {
             let o1: Vec<u8> = (0..r.below(3)).flat_map(|_| { let v = gen_small(r, 0, 3); let mut w = vec![0, r.range(8, 12) as u8, 0, v.len() as u8]; w.extend_from_slice(&v); w }).collect();
             let o2 = if r.chance(1, 3) { o1.clone() } else { near_octets(r, &o1, 0, 40) };
+            tagged = Some(vec![format!("o:{}", hex(&o1))]);
             (41u16, o1, o2)
         } else {
             let tsig = |alg: &Labels, time: u64, fudge: u16, mac: &Vec<u8>, id: u16, err: u16, other: &Vec<u8>| { let mut v = wire_abs(alg);
@@ -1047,6 +1083,7 @@ fn svcb_cases(out: &mut Out, r: &mut Rng, n: u64) {
                 v.extend_from_slice(&id.to_be_bytes()); v.extend_from_slice(&err.to_be_bytes()); v.extend_from_slice(&(other.len() as u16).to_be_bytes()); v.extend_from_slice(other); v };
             let alg = gen_name(r); let time = r.next() >> 16; let fudge = r.u16(); let mac = gen_small(r, 0, 4); let id = r.u16(); let err = r.below(20) as u16; let other = gen_small(r, 0, 3);
             let w1 = tsig(&alg, time, fudge, &mac, id, err, &other);
+            tagged = Some(vec![format!("n:{}", hex(&wire_abs(&alg))), format!("q:{}", time), format!("w:{}", fudge), format!("l:{}", hex(&mac)), format!("w:{}", id), format!("w:{}", err), format!("l:{}", hex(&other))]);
             let w2 = match r.below(8) { 0 => w1.clone(), 1 => tsig(&near_name(r, &alg), time, fudge, &mac, id, err, &other), 2 => tsig(&alg, time ^ (1 << r.below(48)), fudge, &mac, id, err, &other),
                 3 => tsig(&alg, time, fudge.wrapping_add(1), &mac, id, err, &other), 4 => tsig(&alg, time, fudge, &near_octets(r, &mac, 0, 300), id, err, &other),
                 5 => tsig(&alg, time, fudge, &mac, id.swap_bytes(), err, &other), 6 => tsig(&alg, time, fudge, &mac, id, err ^ 1, &other), _ => tsig(&alg, time, fudge, &mac, id, err, &near_octets(r, &other, 0, 300)) };
@@ -1057,6 +1094,7 @@ fn svcb_cases(out: &mut Out, r: &mut Rng, n: u64) {
             let c = format!("ad {} {} {}", rt, hex(&wx), hex(&wy));
             out.begin(&c);
             out.oracle_case(&c, wx != wy, &format!("rdata_{}", tname));
+            if let Some(tv) = &tagged { let x2 = x.clone(); if let Ok(obs) = catch(move || toks(&x2)) { out.case(&format!("rdh {} {}", rt, tv.join(" ")), &obs, true, "rdh"); } }
             match catch(move || (x.canonical_cmp(&y), y.canonical_cmp(&x), x == y, y == x, x.cmp(&y), canon_rd(&x), canon_rd(&y), feed(&x), feed(&y))) {
                 Err(e) => chk(out, false, &format!("rdata_panic_{}", tname), &c, &e),
                 Ok((cc, ccr, eq, eqr, cm, bx, by, hx, hy)) => {
@@ -1084,6 +1122,19 @@ fn svcb_cases(out: &mut Out, r: &mut Rng, n: u64) {
 
 fn main() {
     let a = args();
+    if a.extra.iter().any(|x| x == "--dump-toks") {
+        let show = |rt: u16, w: &[u8]| { if let Some(x) = parse_rd(rt, w) { println!("ZD {} {} => {}", rt, hex(w), toks(&x)); } else { println!("ZD {} {} unparseable", rt, hex(w)); } };
+        show(1, &[1, 2, 3, 4]); show(28, &[1, 2, 3, 4, 5, 6, 7, 8, 9, 10, 11, 12, 13, 14, 15, 16]);
+        show(16, &[1, b'A', 0, 2, b'b', b'c']); show(64, &[0, 1, 1, b'A', 0, 0, 7, 0, 1, 9]); show(65, &[0, 1, 0]);
+        show(45, &[2, 0, 2, 7]); show(45, &[2, 1, 2, 9, 8, 7, 6, 5]); show(45, &[2, 3, 2, 1, b'A', 0, 5]);
+        show(45, &[2, 2, 2, 1, 2, 3, 4, 5, 6, 7, 8, 9, 10, 11, 12, 13, 14, 15, 16, 5]);
+        let show_ad = |rt: u16, w: &[u8]| { let b = Bytes::copy_from_slice(w); let mut p = Parser::from_ref(&b);
+            match AllRecordData::<Bytes, ParsedName<Bytes>>::parse_rdata(Rtype::from_int(rt), &mut p) { Ok(Some(x)) => println!("AD {} {} => {}", rt, hex(w), toks(&x)), _ => println!("AD {} unparseable", rt) } };
+        show_ad(41, &[0, 10, 0, 1, 65]); show_ad(41, &[]);
+        show_ad(250, &[1, b'A', 0, 0, 0, 0, 0, 1, 2, 0, 3, 0, 2, 8, 9, 0, 4, 0, 5, 0, 1, 7]);
+        show_ad(65280, &[1, 2]);
+        return;
+    }
     let mut out = Out::new(&a, "C04", 60);
     let mut r = Rng::new(a.seed);
     let k = if a.thorough { 10 } else { 1 } * a.scale;
